@@ -26,6 +26,8 @@ BOUNDS = {
     "thorough": dict(universe="abcd", lengths="patterns (2,2,2,2) (1,2,3,2) (2,2,3,3)", operand_dims="every ordered subset (65 x 65 pairs)",
                      operators="as quick"),
 }
+# dtype shadow: every shadowed configuration is run once more on integer-dtype arrays (differential concrete run)
+DTYPE_SHADOW = lambda cfg: cfg["op"] != "pow"  # int ** negative int raises in numpy itself
 OPTS = {"quick": dict(shadow_every=40), "thorough": dict(shadow_every=200)}
 
 BINOPS = ["add", "sub", "mul", "div", "pow", "min", "max"]
